@@ -159,6 +159,15 @@ pub fn check(case: &Case, w: usize) -> CheckResult {
         }
     }
     bb::install_simple(&env, cfg, &beh);
+    // every third defined command file is a symbolic link to a script kept elsewhere
+    let mut linked = 0;
+    for (i, (c, t)) in beh.keys().enumerate() {
+        if (i + cfg.targets.len()) % 3 == 0 {
+            let f = bb::simple_cmd_file(cfg, t, c);
+            env.install_command_symlink(&f, &format!("tools/linked/{}-{}.sh", c, i), true);
+            linked += 1;
+        }
+    }
     let mut created: Vec<String> = vec![];
     match &case.state {
         State::NoCheckpoint => {}
@@ -343,6 +352,7 @@ pub fn check(case: &Case, w: usize) -> CheckResult {
         .class_if(bigger_closure, "closure-larger")
         .class_if(!case.undefined.is_empty(), "some-undefined")
         .class_if(cfg.targets.iter().any(|t| t.commands_path.is_some()), "custom-commands-dir")
+        .class_if(linked > 0, "symlinked-command-files")
         .class_if(selected.len() > 16, "selection>16")
         .class_if(selected.len() > 32, "selection>32")
         .class_if(selected.len() > 64, "selection>64")
